@@ -21,7 +21,9 @@ pub enum Case {
     Seg2 { a: P2, b: P2, t: Iso2D, q: P2 },
     Plane { n: P3, d: f64, t: Iso3D, t2: Iso3D, q: P3 },
     Curve2 { spec: Curve2Spec, t: Iso2D, t2: Iso2D, qs: Vec<P2>, ls: Vec<f64> },
-    Curve3 { spec: Curve3Spec, t: Iso3D, t2: Iso3D, qs: Vec<P3>, ls: Vec<f64> },
+    /// close: an extra vertex inserted after vertex i at k tolerances (1.05..1.7) from it in the given direction - an edge
+    /// just longer than the curve's own de-duplication tolerance
+    Curve3 { spec: Curve3Spec, t: Iso3D, t2: Iso3D, qs: Vec<P3>, ls: Vec<f64>, #[serde(default)] close: Option<(u16, P3, f64)> },
     Mesh { spec: MeshSpec, t: Iso3D, qs: Vec<Query> },
     Cloud { pts: Vec<P3>, normals: Option<Vec<P3>>, colors: Option<Vec<[u8; 3]>>, t: Iso3D, t2: Iso3D },
     Dist { a: P2, b: P2, dir: Option<f64>, t: Iso3D },
@@ -38,7 +40,7 @@ impl Property for C03 {
         t.pick(1_600_000, 10_000_000)
     }
     fn expected_labels() -> Vec<&'static str> {
-        vec!["sp2", "sp3", "seg2", "plane", "curve2", "curve3", "mesh", "cloud", "cloud_normals", "cloud_colors", "dist", "lift", "closest_tie"]
+        vec!["sp2", "sp3", "seg2", "plane", "curve2", "curve3", "mesh", "cloud", "cloud_normals", "cloud_colors", "dist", "lift", "closest_tie", "curve3_edge_just_above_tolerance"]
     }
     fn strategy(t: Tier) -> BoxedStrategy<Case> {
         let tm = 1e3;
@@ -49,7 +51,7 @@ impl Property for C03 {
             1 => (p2(10.0), p2(10.0), iso2(tm), p2(10.0)).prop_map(|(a, b, t, q)| Case::Seg2 { a, b, t, q }),
             2 => (unit3(), coord(10.0), iso3(tm), iso3(tm), p3(10.0)).prop_map(|(n, d, t, t2, q)| Case::Plane { n, d, t, t2, q }),
             3 => (curve2_spec(2, 40, -2.0, 2.0, false), iso2(tm), iso2(tm), prop::collection::vec(p2(1.5), 1..6), prop::collection::vec(unif(0.0, 1.0), 1..6)).prop_map(|(spec, t, t2, qs, ls)| Case::Curve2 { spec, t, t2, qs, ls }),
-            2 => (curve3_spec(2, 40, -2.0, 2.0, false), iso3(tm), iso3(tm), prop::collection::vec(p3(1.5), 1..6), prop::collection::vec(unif(0.0, 1.0), 1..6)).prop_map(|(spec, t, t2, qs, ls)| Case::Curve3 { spec, t, t2, qs, ls }),
+            2 => (curve3_spec(2, 40, -2.0, 2.0, false), iso3(tm), iso3(tm), prop::collection::vec(p3(1.5), 1..6), prop::collection::vec(unif(0.0, 1.0), 1..6), prop::option::weighted(0.3, (any::<u16>(), unit3(), unif(1.05, 1.7)))).prop_map(|(spec, t, t2, qs, ls, close)| Case::Curve3 { spec, t, t2, qs, ls, close }),
             2 => (clean_mesh(any_kind(gmax), 10.0), iso3(tm), prop::collection::vec(query(), 2..10)).prop_map(|(spec, t, qs)| Case::Mesh { spec, t, qs }),
             2 => (prop::collection::vec(p3(10.0), 0..20), any::<bool>(), any::<bool>(), prop::collection::vec(unit3(), 20), prop::collection::vec(any::<[u8; 3]>(), 20), iso3(tm), iso3(tm)).prop_map(|(pts, hn, hc, ns, cs, t, t2)| {
                 let n = pts.len();
@@ -67,7 +69,7 @@ impl Property for C03 {
             Case::Seg2 { a, b, t, q } => seg2(a, b, t, q),
             Case::Plane { n, d, t, t2, q } => plane(n, *d, t, t2, q),
             Case::Curve2 { spec, t, t2, qs, ls } => curve2(spec, t, t2, qs, ls),
-            Case::Curve3 { spec, t, t2, qs, ls } => curve3(spec, t, t2, qs, ls),
+            Case::Curve3 { spec, t, t2, qs, ls, close } => curve3(spec, t, t2, qs, ls, close),
             Case::Mesh { spec, t, qs } => mesh(spec, t, qs),
             Case::Cloud { pts, normals, colors, t, t2 } => cloud(pts, normals, colors, t, t2),
             Case::Dist { a, b, dir, t } => dist(a, b, dir, t),
@@ -308,7 +310,7 @@ fn curve2(spec: &Curve2Spec, t: &Iso2D, t2: &Iso2D, qs: &[P2], ls: &[f64]) -> Ve
     cx.pass()
 }
 
-fn curve3(spec: &Curve3Spec, t: &Iso3D, t2: &Iso3D, qs: &[P3], ls: &[f64]) -> Verdict {
+fn curve3(spec: &Curve3Spec, t: &Iso3D, t2: &Iso3D, qs: &[P3], ls: &[f64], close: &Option<(u16, P3, f64)>) -> Verdict {
     let mut cx = Ctx::new();
     cx.label("curve3");
     let b = match spec.build() {
@@ -319,7 +321,22 @@ fn curve3(spec: &Curve3Spec, t: &Iso3D, t2: &Iso3D, qs: &[P3], ls: &[f64]) -> Ve
     let iso = t.to_iso();
     let scale = b.model.scale();
     let tol = tol3(t, scale) + tol3(t2, 0.0);
-    let c = &b.curve;
+    let with_close;
+    let c = match close {
+        Some((i, dir, k)) => {
+            let mut pts: Vec<Point3> = b.curve.points().to_vec();
+            let j = idx(*i, pts.len());
+            let extra = pts[j] + v3(dir).normalize() * (*k * spec.tol);
+            pts.insert(j + 1, extra);
+            with_close = match engeom::Curve3::from_points(&pts, spec.tol) {
+                Ok(c) => c,
+                Err(e) => return Verdict::fail("C03/curve3/from_points", e.to_string()),
+            };
+            cx.label("curve3_edge_just_above_tolerance");
+            &with_close
+        }
+        None => &b.curve,
+    };
     let tc = c.transformed_by(&iso);
     if let Err(f) = derived_curve3_consistent("C03/curve3", &tc) {
         return Verdict::Fail(f);
